@@ -403,9 +403,36 @@ def main(mod, argv):
     ctx = Ctx(prop, tier, seed)
     problems = []   # (kind, detail) that mean "no longer shown to hold"
 
+    # 0. secondary tie (DESIGN 4.2): regenerate the integer kernels from the SOURCE of the tree under test
+    equiv = list(getattr(mod, "EQUIV_THEOREMS", []))
+    translator = None
+    if equiv:
+        from harness import translate
+        try:
+            changed, digests = translate.regenerate(REPO, VERIF)
+            translator = {"regenerated_from": REPO, "file": "lean/MpgsModel/Generated/Kernels.lean", "rewritten": changed,
+                          "source_digests": digests}
+        except translate.Unsupported as e:
+            translator = {"error": str(e)}
+            problems.append(("translator", "a kernel of connection.py left the subset the translator accepts (its Lean definition "
+                                           "could not be regenerated, so Props/Equiv.lean no longer speaks about this source): %s" % e))
+        except Exception as e:
+            translator = {"error": "%s: %s" % (type(e).__name__, e)}
+            problems.append(("translator", "regenerating the kernels failed: %s: %s" % (type(e).__name__, e)))
+
     # 1. build (only the modules this property needs; setup_cmd builds everything)
     targets = list(mod.LEAN_MODULES) + list(getattr(mod, "MODEL_MODULES", [])) + ["MpgsModel.Model.DriverUtil"]
     ok, log, build_s = lake_build(targets)
+    equiv_ok = False
+    if ok and equiv and translator and "error" not in translator:
+        # built on its own: when the regenerated kernels no longer equal the model, the model, its theorems and the driver still
+        # build, and the differential and the monitors go on to look for a concrete failing input
+        equiv_ok, elog, es = lake_build(["MpgsModel.Props.Equiv"])
+        build_s += es
+        if not equiv_ok:
+            tail = "\n".join([l for l in elog.split("\n") if "error" in l.lower()][:8]) or elog[-800:]
+            problems.append(("equivalence", "Props/Equiv.lean no longer checks: a kernel regenerated from the source differs from "
+                                            "the model definition the theorems are about: " + tail))
     if not ok:
         ctx.lean_ok = False
         ctx.lean_problem = "lake build failed"
@@ -429,6 +456,18 @@ def main(mod, argv):
                 problems.append(("audit", "theorem %s uses axioms %s" % (name, ax)))
             else:
                 discharged += 1
+        if equiv_ok:
+            eax, _ = run_audit(prop + "_equiv", ["MpgsModel.Props.Equiv"], equiv)
+            for name in equiv:
+                ax = eax.get(name)
+                axioms[name] = ax
+                if ax is None:
+                    problems.append(("audit", "theorem %s missing or not checked" % name))
+                elif not set(ax) <= ALLOWED_AXIOMS:
+                    problems.append(("audit", "theorem %s uses axioms %s" % (name, ax)))
+                else:
+                    discharged += 1
+    theorems = theorems + equiv
     leancheck = None
     if ok and tier == "thorough":
         try:
@@ -503,7 +542,9 @@ def main(mod, argv):
             "checker_cmd": "cd lean && lake build && lake env lean Audit/%s.lean   (#print axioms per theorem)%s"
                            % (prop, "; lake env leanchecker " + " ".join(mod.LEAN_MODULES) if tier == "thorough" else ""),
             "trusted_base": TRUSTED_BASE + list(getattr(mod, "TRUSTED_EXTRA", [])),
-            "theorems": [{"name": t[0], "kind": t[1], "axioms": axioms.get(t[0])} for t in mod.THEOREMS],
+            "theorems": [{"name": t[0], "kind": t[1], "axioms": axioms.get(t[0])} for t in mod.THEOREMS]
+                        + [{"name": t, "kind": "equivalence (regenerated kernel = model)", "axioms": axioms.get(t)} for t in equiv],
+            "translator": translator,
             "evaluations": ctx.evaluations,
             "distinct_nontrivial": len(ctx.hashes_nontrivial),
             "rule": " | ".join(ctx.rules) or getattr(mod, "RULE", ""),
